@@ -6,19 +6,19 @@ ROOT = os.path.dirname(os.path.dirname(os.path.abspath(__file__)))
 
 # id -> (built?, technique, level text, level note, design ref)
 P = {
-    'C01': (True, 'deviation-bounded exhaustive enumeration of derivations of a reference grammar (E-DERIV, d<=2 quick / d<=3 thorough) with soft-keyword and identifier post-passes, real parser in three modes vs the CPython 3.11 reference tree',
+    'C01': (True, 'deviation-bounded exhaustive enumeration of derivations of a reference grammar (E-DERIV, d<=2 quick / d<=3 thorough) with soft-keyword and identifier post-passes, every production and parent/child production pair of the compiled LR tables (E-PROD over G_impl, hook H3 coverage), exhaustive strings over lexeme / header-token / layout alphabets (E-STR), real parser in three modes vs the CPython 3.11 reference tree (PEP 695 by erasure)',
             'Every derivation of G_ref (358 alternatives) with at most d non-default alternatives is rendered, validated by CPython and parsed by the real parser; trees are compared node by node through a generic Debug-derived channel. Cost 2 covers every ordered pair (parent construct, child construct, position).',
             'CPython 3.11 ast.parse; derive(Debug); the canonicalisers in vp/astcmp.py; PEP 695 forms are not compared with a reference tree yet', '7/C01'),
-    'C02': (True, 'the same deviation-bounded exhaustive enumeration x 6 layouts (LF/CRLF/CR/BOM/tab/multi-byte), all-nodes-with-ranges build; every node checked structurally and against CPython positions converted to byte offsets',
+    'C02': (True, 'the same deviation-bounded exhaustive enumeration x 9 layouts (LF/CRLF/CR/BOM/tab/multi-byte/comments/line-spread/no final newline) + a redundant parenthesis pair at every expression occurrence, the G_impl production sentences and the E-STR alphabets of C01, all-nodes-with-ranges build; every node checked structurally and against CPython positions converted to byte offsets',
             'Every node of every tree of every CPython-valid sentence inside the bound under every layout is checked for the structural clauses and for range equality with the reference extent.',
             'CPython 3.11 positions; pieces of an f-string are exempt from extent equality (3.11 gives each piece the extent of the whole literal)', '7/C02'),
-    'C03': (True, 'bounded-exhaustive enumeration: every string <=4/5 over a 26-character alphabet (<=5/6 over 14) x 3 modes x 4 start offsets inside the worker, all lexeme sequences, all single-character mutations of corpus sentences; scaling families in sub-processes with deterministic step counts (hook H2)',
+    'C03': (True, 'bounded-exhaustive enumeration: every string <=4/5 over a 26-character alphabet (<=5/6 over 14) x 3 modes x 4 start offsets inside the worker, all lexeme and layout-lexeme sequences, every literal form of the C06 escape corpus, all single-character mutations (deletion, duplication, transposition, multi-byte replacement/insertion) of corpus sentences; scaling families in sub-processes with deterministic step counts (hook H2)',
             'No input inside the bound panics (overflow checks on), every error offset lies in [start, start+len] on a character boundary, the token stream is finite up to its first error; 49 scaling families up to 4096 neither abort on an 8 MiB stack at realistic sizes nor grow faster than cubically in steps.',
             'release build with overflow-checks/debug-assertions; step counter H2; the polynomial claim is checked on the listed families only', '7/C03'),
     'C04': (True, 'exhaustive application of rule-violating edit operators at every site of every corpus sentence plus complete products of parameter lists, argument lists, indentation triples, number shapes and f-string bodies; CPython decides (by message class) that the case violates the rule',
             'For every case CPython rejects for the rule in question, the real parser must reject with an error kind that names that rule and an offset inside the edited construct; single-violation filters keep cases with two independent errors out.',
             'CPython 3.11 ast.parse/compile messages classify the violations; the kind table is at the granularity of the property\'s rule list', '7/C04'),
-    'C05': (True, 'bounded-exhaustive enumeration of character strings, lexeme sequences and corpus layouts through the real lexer in both configurations and three modes; reference-free tiling invariants plus agreement with CPython\'s C tokenizer',
+    'C05': (True, 'explicit-state search of the lexer line machine through hook H1 (state = bracket depth, begin-of-line flag, indentation stack; closed at depth 5) and bounded-exhaustive enumeration of character strings, lexeme and layout-lexeme sequences and corpus layouts through the real lexer in both configurations and three modes; reference-free tiling invariants plus agreement with CPython\'s C tokenizer',
             'Every text inside the bound is lexed by the default and full-lexer builds; ranges, gaps, spellings, number/string payloads, NEWLINE/INDENT/DEDENT discipline and Comment/NonLogicalNewline tokens are checked on every token, and NAME/NUMBER/STRING/operator tokens are compared with _tokenize.TokenizerIter.',
             'CPython 3.11 C tokenizer for significant tokens (layout tokens are not compared with it); invariants computed from (Tok, range) and the text', '7/C05'),
     'C06': (True, 'exhaustive enumeration of the escape space (all one-char escapes x prefixes x quotes, all \\x, all octal, all \\uXXXX, \\U boundaries, \\N names), prefixes, newline shapes, concatenations, all numeric strings <=5/6 over a 16-symbol alphabet, boundary integers and float midpoints, vs CPython values',
@@ -33,7 +33,7 @@ P = {
     'C09': (True, 'exhaustive enumeration of G_ref sentences (valid and invalid) and of all short character strings, each through every entry point at 6 start offsets, against the offset-0 result shifted/projected in the harness',
             'For every text inside the bound, every entry point (parse*, lex*, Parse::* for Mod/Suite/Stmt/Expr/Identifier/Constant and all 55 generated node types, deprecated helpers) in three modes at offsets {0,1,7,400,2^31,2^32-2-len} must equal the shifted / projected offset-0 result.',
             'reference = parse(text, mode) at offset 0 (self-relation, no external oracle)', '7/C09'),
-    'C10': (True, 'exhaustive enumeration of corpus sentences under comment/blank-line/CRLF layouts, all short character strings and number shapes, each through the four feature builds; pairwise comparison with the default build',
+    'C10': (True, 'exhaustive enumeration of corpus sentences under comment/blank-line/CRLF layouts, all short character strings, lexeme and layout-lexeme sequences, f-string products and number shapes, each through the four feature builds; pairwise comparison with the default build',
             'Acceptance, tree, mandatory ranges, error kind and offset, and (for full-lexer) the filtered token stream are compared for every text inside the bound.',
             'self-relation between builds of the same source tree', '7/C10'),
     'C11': (True, 'deviation-bounded exhaustive enumeration of expression derivations (G_ref expression grammar d<=2/3, operator-and-parenthesis sub-grammar d<=3/4) plus a constant/f-string alphabet, each through parse -> unparse -> parse -> unparse',
